@@ -119,3 +119,49 @@ def window_var(target, w):
     s1 = (W * w).sum(axis=ax)
     s2 = (W * W * w).sum(axis=ax)
     return w.sum() * s2 - s1 ** 2
+
+
+class Recorder:
+    """callback_class that keeps a copy of every per-rotation score array handed to it (in-process runs only)"""
+    shared = False
+    log = []
+
+    def __init__(self, *args, **kwargs):
+        pass
+
+    def __call__(self, scores, rotation_matrix, **kwargs):
+        Recorder.log.append((np.array(rotation_matrix, dtype=np.float64).copy(), np.array(scores, dtype=np.float64).copy()))
+
+    def _postprocess(self, **kwargs):
+        return self
+
+    def __iter__(self):
+        yield from (None,)
+
+    @classmethod
+    def merge(cls, *args, **kwargs):
+        return None
+
+
+def run_subsets(score, target, template, mask=None, target_mask=None, rotations=None, pad=True, order=3,
+                splits=None, schedule=(1, 1), pad_edges=False, callback_class=None, callback_args=None, dtype=np.float32):
+    """Real `scan_subsets` of /repo (worker processes when schedule != (1, 1))."""
+    import warnings
+    from tme.matching_data import MatchingData
+    from tme.matching_exhaustive import scan_subsets, MATCHING_EXHAUSTIVE_REGISTER
+    from tme.analyzer import MaxScoreOverRotations
+    if callback_class is None:
+        callback_class = MaxScoreOverRotations
+    if callback_args is None:
+        callback_args = {"score_threshold": -1e30}
+    with contextlib.redirect_stdout(io.StringIO()), warnings.catch_warnings():
+        warnings.simplefilter("ignore")
+        md = MatchingData(target=np.array(target, dtype=dtype), template=np.array(template, dtype=dtype),
+                          template_mask=None if mask is None else np.array(mask, dtype=dtype),
+                          target_mask=None if target_mask is None else np.array(target_mask, dtype=dtype),
+                          rotations=None if rotations is None else np.array(rotations, dtype=np.float32))
+        setup, scoring = MATCHING_EXHAUSTIVE_REGISTER[score]
+        res = scan_subsets(md, scoring, setup, callback_class=callback_class, callback_class_args=dict(callback_args),
+                           job_schedule=tuple(schedule), target_splits=dict(splits or {}), pad_target_edges=pad_edges,
+                           pad_fourier=pad, interpolation_order=order)
+    return res
